@@ -201,7 +201,9 @@ fn gen_hs(run: &mut Run, prop: &str, seed: u64, thorough: bool) {
                     },
                     // every failure cause x message, with twin comparison under fixed ephemerals
                     "C07" | "C06" | "C10" | "C14" | "C19" | "C03" | "C11" | "C12" | "C17" => {
-                        cfg.fixed_e = prop == "C07" || r.chance(1, 2);
+                        // C07: mostly fixed ephemerals (byte-for-byte twin comparison); in a third the ephemerals are
+                        // drawn from the (scripted) random source, so a repeated write draws a NEW one (seed C07-N)
+                        cfg.fixed_e = if prop == "C07" { r.chance(2, 3) } else { r.chance(1, 2) };
                         cfg.query_each_step = matches!(prop, "C07" | "C11" | "C17" | "C10");
                         if prop == "C17" && !real {
                             cfg.dh = "P256".into();
